@@ -1663,12 +1663,14 @@ class rx:
                     if obj is Skip:
                         raise Skip
             except Skip:
-                self._dirty = False
-                return self._current_
+                # (skipped: the previous value stands, the pending attribute
+                # access below still applies to it)
+                current = self._current_
             except Exception as e:
                 self._error_state = e
                 raise e
-            self._current_ = current = obj
+            else:
+                self._current_ = current = obj
         else:
             current = self._current_
         self._dirty = False
